@@ -90,8 +90,67 @@ func runDecode(cfg *Cfg) {
 // adversarial length / count claims with the heap growth measured.
 var deepTargets int
 
+// raggedPackedRuns: for every repeated fixed-width field, a packed run whose length is not a multiple of the
+// element width, alone and followed by further records (so that a bound check against the whole input instead of
+// the run does not notice), into an empty and into a non-empty list.
+func raggedPackedRuns(out *Out, t *Target) {
+	for _, f := range t.S.Msgs[0].Fields {
+		if f.IsMsg || f.Shape != vschema.Repeated {
+			continue
+		}
+		width := 0
+		switch f.Kind {
+		case vschema.Fixed32, vschema.Sfixed32, vschema.Float:
+			width = 4
+		case vschema.Fixed64, vschema.Sfixed64, vschema.Double:
+			width = 8
+		}
+		if width == 0 {
+			continue
+		}
+		for _, whole := range []int{0, 1, 3} {
+			for _, extra := range []int{1, width - 1} {
+				for _, tail := range []int{0, 12} {
+					for _, prefill := range []bool{false, true} {
+						var bs []byte
+						if prefill {
+							bs = protowire.AppendTag(bs, protowire.Number(f.Num), protowire.BytesType)
+							bs = protowire.AppendVarint(bs, uint64(2*width))
+							bs = append(bs, make([]byte, 2*width)...)
+						}
+						n := whole*width + extra
+						bs = protowire.AppendTag(bs, protowire.Number(f.Num), protowire.BytesType)
+						bs = protowire.AppendVarint(bs, uint64(n))
+						for i := 0; i < n; i++ {
+							bs = append(bs, byte(i+1))
+						}
+						for i := 0; i < tail/3; i++ {
+							bs = append(bs, 0xc0, 0x3e, 0x01) // unknown field 1000, varint 1
+						}
+						msg := t.B.ToMessage(0, vval.Empty(t.S, 0))
+						var err error
+						replay := fmt.Sprintf("%s\ndec %s 0 - x%x %s\n# ragged packed run for field %d (width %d, run length %d, %d bytes follow)", t.S.Line(), t.S.ID, bs, vval.Empty(t.S, 0).String(), f.Num, width, n, tail)
+						p, pm := guard(func() { err = proto.Unmarshal(bs, msg) })
+						out.Case(fmt.Sprintf("ragged:%s:%d:%d:%d:%d:%v", t.Full, f.Num, whole, extra, tail, prefill), true)
+						out.Count("ragged_packed_cases")
+						if p {
+							out.Violate("C06", "unmarshal-panic_ragged-packed-run", "panic on a packed run whose length is not a multiple of the element width: "+firstLine(pm), replay)
+							continue
+						}
+						refErr := proto.Unmarshal(bs, dynamicpb.NewMessage(t.Desc))
+						if err == nil && refErr != nil {
+							out.Count("ragged_packed_accepted_where_reference_rejects")
+						}
+					}
+				}
+			}
+		}
+	}
+}
+
 func deepAndBig(out *Out, t *Target, r *vschema.Rand, tier string) {
 	smallLimitWalks(out, t, r, tier)
+	raggedPackedRuns(out, t)
 	// a cycle of singular / repeated / oneof message fields from the root back to the root
 	path := nestPath(t.S)
 	if len(path) > 0 {
@@ -347,7 +406,7 @@ func nestBytes(s *vschema.Schema, path []int, n int) []byte {
 
 func mutate(r *vschema.Rand, bs []byte) []byte {
 	b := append([]byte(nil), bs...)
-	switch r.Intn(7) {
+	switch r.Intn(8) {
 	case 0:
 		if len(b) > 0 {
 			b = b[:r.Intn(len(b))]
@@ -395,6 +454,21 @@ func mutate(r *vschema.Rand, bs []byte) []byte {
 		b = protowire.AppendVarint(b, uint64(n))
 		for i := 0; i < n+r.Intn(3); i++ {
 			b = append(b, byte('A'+r.Intn(3)))
+		}
+	case 6:
+		// a packed run of a fixed width whose length is NOT a multiple of the width, followed by enough further
+		// bytes to hide the overrun from a bound check against the whole input (any field number: a repeated
+		// fixed-width field of the target is hit with probability ~ its share of numbers 1..60)
+		width := []int{4, 8}[r.Intn(2)]
+		n := width*(1+r.Intn(4)) + 1 + r.Intn(width-1)
+		b = protowire.AppendTag(b, protowire.Number(1+r.Intn(60)), protowire.BytesType)
+		b = protowire.AppendVarint(b, uint64(n))
+		for i := 0; i < n; i++ {
+			b = append(b, byte(r.U64()))
+		}
+		for i := 0; i < 3+r.Intn(4); i++ {
+			b = protowire.AppendTag(b, protowire.Number(1000+r.Intn(9)), protowire.VarintType)
+			b = protowire.AppendVarint(b, uint64(r.Intn(200)))
 		}
 	default:
 		k := 1 + r.Intn(10)
